@@ -269,6 +269,8 @@ def oracle_c02(case, tb, rec, out):
             out["violations"].append({"key": "C02:progress-counter-not-1..N", "msg": "progress counters %s, expected 1..%d" % (ks, len(executed)), "witness": W()})
             return
         need_proc = {x for x in executed if tb[x]["kind"] in PROC} - set(rec["skipped"])
+        if rec.get("e1"):
+            need_proc -= {x for x in need_proc if inv.get("script", {}).get(x, {}).get("launch_fail")}
         missing = need_proc - set(spawns)
         if missing:
             out["violations"].append({"key": "C02:needed-task-not-executed", "msg": "needed tasks never spawned: %s" % sorted(missing), "witness": W()})
@@ -325,6 +327,9 @@ def oracle_c03(case, tb, rec, out):
             return
         # 3. independents still run
         need_proc = {x for x in executed if tb[x]["kind"] in PROC and x not in S}
+        if rec.get("e1"):
+            # real kernel: a task that cannot be launched never produces a probe record
+            need_proc -= {x for x in need_proc if inv.get("script", {}).get(x, {}).get("launch_fail")}
         if need_proc - spawned:
             out["violations"].append({"key": "C03:independent-task-not-run", "msg": "unaffected tasks never started: %s (failed=%s skipped=%s)" % (sorted(need_proc - spawned), sorted(F), sorted(S)), "witness": W()})
             return
